@@ -520,6 +520,9 @@ static bool read_lead(zckCtx *zck) {
                   "(%i)", hash_type, zck->prep_hash_type);
         return false;
     }
+    /* The lead may be read again on a context that is already open: a running
+     * data digest refers to the type description rewritten below */
+    hash_close(&(zck->check_full_hash));
     if(!hash_setup(zck, &(zck->hash_type), hash_type)) {
         free(header);
         return false;
@@ -656,6 +659,9 @@ bool ZCK_PUBLIC_API zck_validate_lead(zckCtx *zck) {
     zck->lead_size = 0;
     zck->header_digest = NULL;
     zck->hdr_digest_loc = 0;
+    /* A running data digest of an already opened context refers to the type
+     * description that is wiped here */
+    hash_close(&(zck->check_full_hash));
     hash_reset(&(zck->hash_type));
     if(!seek_data(zck, 0, SEEK_SET))
         return false;
